@@ -59,3 +59,9 @@ claim("C07", "exploration", "Hypothesis-generated client programs x reactive gat
       "the client's write/ack/read phases and cut at generated split points, are demultiplexed by the real code; a reference demultiplexer decides every operation (outcome, value, instant) from the "
       "recorded delivery timeline; alive replies are checked for instant and content. Exploration over an unbounded sequence space.",
       "The peer is modelled at the StreamReader boundary; status/unknown control words are an abstention; write payloads carry a running number so that stale duplicate acks cannot match.")
+claim("C06", "exploration", "Enumerated activation grid (types x response codes) + Hypothesis client programs x reactive gateway scripts x split points on the real DoIPConnection under virtual time; post-hoc reference demultiplexer",
+      "connect() is exercised over a patched open_connection for every activation type x response code pair of the grid (full 256x256 in thorough) and for generated URIs/preludes: request bytes and "
+      "the usable-iff-0x10 rule. Generated frame sequences over the DoIP gateway alphabet, injected relative to the client's write/ack/read phases and cut at generated split points, are demultiplexed by "
+      "the real code and judged by a reference demultiplexer on the recorded delivery timeline (reads in order / nothing lost, write iff acknowledged within 2 s, alive check answered within 0.5 s). "
+      "Exploration over an unbounded sequence space; the activation grid is exhaustive in the thorough tier.",
+      "Gateway and TCP modelled at the StreamReader boundary; at most one acknowledgement valid for each write is generated.")
